@@ -92,4 +92,47 @@ example : ∃ e, documentStart (PState.mk [⟨Span.empty ⟨0, 1, 0⟩, .scalar 
     .documentStart [] [] 1 [] false) false = .err e :=
   second_root_rejected _ _ [] rfl (by simp) (by simp) (by simp) (by simp) (by simp)
 
+/-- tokens that can never continue an open flow collection: the end of the stream, a document marker,
+    a directive, or a block-end token -/
+def notInFlow : TokenType → Bool
+  | .streamEnd | .documentStart | .documentEnd | .versionDirective .. | .tagDirective ..
+  | .blockEnd | .streamStart => true
+  | _ => false
+
+/-- **A flow sequence still open at the end of input (or at a document marker) is an error**: in the
+    state after an entry of `[ … `, any token that is neither `,` nor `]` is rejected — in particular
+    StreamEnd and the closing bracket of the other kind, `}`. -/
+theorem open_flow_sequence_rejected (p : PState) (t : Token) (rest : List Token) (hp : p.toks = t :: rest)
+    (h1 : t.ty ≠ .flowSequenceEnd) (h2 : t.ty ≠ .flowEntry) :
+    ∃ e, flowSequenceEntry p false = .err e := by
+  unfold flowSequenceEntry
+  simp only [skipFirst, Bool.false_eq_true, ↓reduceIte, Pure.pure, Bind.bind, peekTok, hp, requireFlowEntry]
+  token_cases
+
+/-- the same for a flow mapping `{ … `: after a pair, anything but `,` or `}` (StreamEnd, `]`, …) is
+    rejected -/
+theorem open_flow_mapping_rejected (p : PState) (t : Token) (rest : List Token) (hp : p.toks = t :: rest)
+    (h1 : t.ty ≠ .flowMappingEnd) (h2 : t.ty ≠ .flowEntry) :
+    ∃ e, flowMappingKey p false = .err e := by
+  unfold flowMappingKey
+  simp only [skipFirst, Bool.false_eq_true, ↓reduceIte, Pure.pure, Bind.bind, peekTok, hp, requireFlowEntry]
+  token_cases
+
+/-- directly after `[` or after `,`: the end of the stream, a document marker, a directive or a
+    block end where an entry is expected is an error (no properties pending) -/
+theorem flow_entry_expected_rejected (p : PState) (t : Token) (rest : List Token) (b i : Bool)
+    (hp : p.toks = t :: rest) (ht : notInFlow t.ty = true) :
+    ∃ e, parseNode p b i = .err e := by
+  unfold parseNode parseNodeContent
+  simp only [peekTok, hp]
+  obtain ⟨sp, ty⟩ := t
+  cases ty <;> simp [notInFlow] at ht <;> simp
+
+/-- a mismatched closing bracket: `}` where a flow sequence is open, `]` where a flow mapping is open -/
+theorem mismatched_bracket_rejected (p : PState) (sp : Span) (rest : List Token) :
+    (p.toks = ⟨sp, .flowMappingEnd⟩ :: rest → ∃ e, flowSequenceEntry p false = .err e) ∧
+    (p.toks = ⟨sp, .flowSequenceEnd⟩ :: rest → ∃ e, flowMappingKey p false = .err e) :=
+  ⟨fun h => open_flow_sequence_rejected p _ rest h (by simp) (by simp),
+   fun h => open_flow_mapping_rejected p _ rest h (by simp) (by simp)⟩
+
 end SaphyrModel.C06
